@@ -23,6 +23,59 @@ def iso(src, data, pos, **kw):
         return ('explicit',)
     except core.ConstructError as e:
         return ('err', type(e).__name__)
+    except Exception as e:
+        return ('foreign', type(e).__name__)
+
+
+# alternatives / elements that fail with an exception that is not a ConstructError (a missing context key, a division by zero
+# or a type error in a context expression): Select, Optional and GreedyRange treat them like any other failed alternative
+FOREIGN = ['Struct("a"/Byte, "b"/Bytes(this.nokey))', 'Struct("a"/Int16ub, "c"/Computed(this.a // (this.a - this.a)))',
+           'Struct("a"/Byte, "c"/Computed(this.a + "x"))', 'Sequence(Byte, Byte, Bytes(this._.nokey))']
+
+
+@C.oracle('pointer_stream')
+def o_pointer_stream(src, inner, off, data, other, opos):
+    """Pointer(..., stream=<another stream>): the value comes from that stream at the offset, that stream is left where it was,
+    and the stream being parsed is not moved"""
+    main, oth = io.BytesIO(data), io.BytesIO(other)
+    oth.seek(opos)
+    main.seek(1)
+    try:
+        v = C.get(src).parse_stream(main, other=oth)
+    except core.ConstructError as e:
+        v = ('err', type(e).__name__)
+    exp = iso(inner, other, off if off >= 0 else max(0, len(other) + off))
+    if exp[0] == 'ok':
+        if isinstance(v, tuple) or not C.peq(v, exp[1]):
+            return 'Pointer into the other stream gives %r, the inner construct at that offset gives %r' % (v, exp[1])
+    if oth.tell() != opos:
+        return 'the other stream stood at %d, after the Pointer it stands at %d' % (opos, oth.tell())
+    if main.tell() != 1:
+        return 'the parsed stream was moved from 1 to %d' % main.tell()
+    # building: the value is written into the other stream at the offset, both positions are kept
+    main2, oth2 = io.BytesIO(), io.BytesIO(other)
+    main2.write(b'\xee\xee')
+    oth2.seek(opos)
+    if exp[0] == 'ok':
+        try:
+            C.get(src).build_stream(exp[1], main2, other=oth2)
+        except core.ConstructError as e:
+            return 'build raised %s' % type(e).__name__
+        if oth2.tell() != opos or main2.tell() != 2 or main2.getvalue() != b'\xee\xee':
+            return 'after building: other stream at %d (was %d), built stream at %d with %r' % (oth2.tell(), opos, main2.tell(), main2.getvalue())
+    return None
+
+
+@C.oracle('pointer_root')
+def o_pointer_root(src, data):
+    """a Pointer into the enclosing stream from inside a delimited region: the fields after the region are where they were"""
+    plain = src.replace(', stream=this._root._io', '')
+    a, b = iso(src, data, 0), iso(plain, data, 0)
+    if a[0] != 'ok':
+        return 'parse raised %s' % (a[1:],)
+    if b[0] == 'ok' and (a[2] != b[2] or not C.peq(a[1]['tail'], b[1]['tail'])):
+        return 'with the Pointer aimed at the enclosing stream the parse ends at %d with tail %r; aimed at the region it ends at %d with tail %r' % (a[2], a[1]['tail'], b[2], b[1]['tail'])
+    return None
 
 
 @C.oracle('peek')
@@ -44,6 +97,8 @@ def o_peek(src, inner, data, start):
 @C.oracle('select')
 def o_select(src, alts, data, start):
     r = iso(src, data, start)
+    if r[0] == 'foreign':
+        return 'Select let %s escape (an alternative that fails is skipped, whatever it raises)' % r[1]
     for a in alts:
         i = iso(a, data, start)
         if i[0] == 'explicit':
@@ -177,16 +232,19 @@ def run(tier, seed):
                     cases.append(dict(src='Sequence(%s, Tell)' % src, op='parse', data=d, start=st))
                     checks.append(('peek', src, dict(inner=inner, data=d, start=st)))
         elif kind in ('select', 'optional'):
-            alts = [rng.choice(ALTS) for _ in range(rng.randint(1, 3))] if kind == 'select' else [rng.choice(ALTS), 'Pass']
+            alts = [rng.choice(ALTS) for _ in range(rng.randint(1, 3))] if kind == 'select' else [rng.choice(ALTS + FOREIGN[:2]), 'Pass']
             if kind == 'select' and rng.random() < 0.1:
                 alts.insert(rng.randrange(len(alts) + 1), 'Error')
+            if kind == 'select' and rng.random() < 0.3:
+                alts.insert(rng.randrange(len(alts)), rng.choice(FOREIGN))
             src = 'Select(%s)' % ', '.join(alts) if kind == 'select' else 'Optional(%s)' % alts[0]
             for d in datas(rng, alts, 6):
                 for st in sorted(set([0, rng.randint(0, max(0, len(d)))])):
                     cases.append(dict(src='Sequence(%s, Tell)' % src, op='parse', data=d, start=st))
                     checks.append(('select', src, dict(alts=alts, data=d, start=st)))
         elif kind in ('greedy', 'greedy_discard'):
-            elem = rng.choice([a for a in ALTS if 'Padded' not in a] + ['Select(Const(b"\\x01"), Const(b"AB"))', 'Struct("a"/Byte, "e"/If(this.a == 9, Error))'])
+            elem = rng.choice([a for a in ALTS if 'Padded' not in a] + ['Select(Const(b"\\x01"), Const(b"AB"))', 'Struct("a"/Byte, "e"/If(this.a == 9, Error))',
+                               'Struct("a"/Byte, "c"/If(this.a > 5, Bytes(this.nokey)))', 'Struct("a"/Byte, "c"/Computed(7 // (this.a - 9)))'])
             disc = kind == 'greedy_discard'
             src = 'GreedyRange(%s%s)' % (elem, ', discard=True' if disc else '')
             for d in datas(rng, [elem], 6):
@@ -223,6 +281,18 @@ def run(tier, seed):
                 for st in sorted(set([0, rng.randint(0, max(0, len(d)))])):
                     cases.append(dict(src='Sequence(%s, Tell)' % src, op='parse', data=d, start=st))
                     checks.append(('union', src, dict(members=ms, parsefrom=pf, data=d, start=st)))
+    # Pointer into another stream (stream=...): explicit second stream, and the enclosing stream from inside a delimited region
+    for inner in ('Byte', 'Int16ub', 'Bytes(3)', 'Struct("a"/Byte, "b"/Byte)'):
+        for off in (0, 2, 5, -3):
+            for opos in (0, 1, 4, 9):
+                other = bytes(range(16, 26))
+                checks.append(('pointer_stream', 'Pointer(%d, %s, stream=this._params.other)' % (off, inner),
+                               dict(inner=inner, off=off, data=b'\x01\x02\x03\x04\x05\x06', other=other, opos=opos)))
+    for src, d in [('Struct("h"/Byte, "r"/Prefixed(Byte, Struct("p"/Pointer(0, Byte, stream=this._root._io), "x"/Byte)), "tail"/Byte)', b'\x10\x02\x20\x30\x99\x77'),
+                   ('Struct("h"/Byte, "r"/FixedSized(3, Struct("p"/Pointer(4, Int16ub, stream=this._root._io), "x"/Byte)), "tail"/Int16ub)', b'\x10\x20\x30\x40\x99\x77\x55')]:
+        for st in (0, 1):
+            cases.append(dict(src='Sequence(%s, Tell)' % src, op='parse', data=b'\xee' * st + d, start=st))
+        checks.append(('pointer_root', src, dict(data=d)))
     acc.corr(cases, 'lookahead')
     for kind, src, args in checks:
         acc.check(kind, src, **args)
